@@ -422,13 +422,13 @@ theorem bitReaderVlqGo_spec : ∀ (bs : List Nat) (i v sh : Nat), sh = 7 * i →
       if i + n ≤ 10 then
         ∃ w, bitReaderVlqGo i sh v bs = .ok (some (w, i + n)) ∧ w < 2 ^ 64 ∧
           (v + val * 2 ^ (7 * i) < 2 ^ 64 → w = v + val * 2 ^ (7 * i))
-      else bitReaderVlqGo i sh v bs = .error .panic
+      else bitReaderVlqGo i sh v bs = .ok none
     | none =>
-      if 11 ≤ i + bs.length then bitReaderVlqGo i sh v bs = .error .panic
+      if 11 ≤ i + bs.length then bitReaderVlqGo i sh v bs = .ok none
       else bitReaderVlqGo i sh v bs = .ok none := by
   intro bs
   induction bs with
-  | nil => intro i v sh _ hi _ _; simp [uleb, bitReaderVlqGo]; omega
+  | nil => intro i v sh _ hi _ _; simp [uleb, bitReaderVlqGo]
   | cons b bs ih =>
     intro i v sh hsh hi hv hv64
     subst hsh
